@@ -167,6 +167,17 @@ def _run_one(cfg, rec):
                 record(f"update {u + 1}", params, cur)
                 if u == 0:
                     record("copy", params.copy(), cur)
+                    # the optimiser works on a copy: updating the copy follows the copy's values and leaves the original alone
+                    cp = params.copy()
+                    curz = dict(cur)
+                    z = SymArray((len(free_labels),))
+                    for k, lab in enumerate(free_labels):
+                        i = [j for j in plain_idx if _label(cfg, j) == lab][0]
+                        curz[i] = sym(f"Z_{i}")
+                        z[k] = curz[i]
+                    cp.set_from_label_and_value_arrays(free_labels, z)
+                    record("copy updated", cp, curz)
+                    record("original after the copy was updated", params, cur)
             # partial updates as in finite-difference steps: one entry changes, the others keep their value
             for k0 in range(len(free_labels)):
                 x = SymArray((len(free_labels),))
@@ -198,7 +209,7 @@ def _run_one(cfg, rec):
                     goal = z3.BoolVal(ok)
                 else:
                     goal = core.cross_eq(g.e, want[i] if isinstance(want[i], z3.ExprRef) else zreal(want[i]))
-                stage_kind = "construction" if name == "construction" else "copy" if name == "copy" else "update"
+                stage_kind = "construction" if name == "construction" else "copy" if "copy" in name else "update"
                 items.append((f"after {stage_kind}: every parameter equals its expression on the current values",
                               goal, f"expressions:stale-after-{stage_kind}"))
                 a = again[i]
@@ -211,6 +222,7 @@ def _run_one(cfg, rec):
         env = {f"V_{i}": 0.5 + 0.25 * i for i in range(n)}
         env.update({f"U{u}_{i}": 0.3 + 0.2 * i + 0.15 * u for u in range(cfg["updates"]) for i in range(n)})
         env.update({f"W{k0}_{i}": 0.9 + 0.3 * i + 0.1 * k0 for k0 in range(n) for i in range(n)})
+        env.update({f"Z_{i}": 1.4 + 0.35 * i for i in range(n)})
         expected = {}
         for name, got, again, plain in stages:
             expected[name] = [core.evalf(zreal(got[i]), env) if isinstance(got[i], SymReal) else float(got[i]) for i in range(n)]
@@ -239,6 +251,16 @@ def _float_stages(cfg, env):
             if u == 0:
                 cp = params.copy()
                 out["copy"] = ([cp.get(_label(cfg, i)).value for i in range(n)], dict(cur))
+                cp = params.copy()
+                curz = dict(cur)
+                z = []
+                for lab in free_labels:
+                    i = [j for j in plain_idx if _label(cfg, j) == lab][0]
+                    curz[i] = float(env.get(f"Z_{i}", 1.4 + 0.35 * i))
+                    z.append(curz[i])
+                cp.set_from_label_and_value_arrays(free_labels, np.array(z))
+                out["copy updated"] = ([cp.get(_label(cfg, i)).value for i in range(n)], dict(curz))
+                out["original after the copy was updated"] = ([params.get(_label(cfg, i)).value for i in range(n)], dict(cur))
         for k0 in range(len(free_labels)):
             x = []
             for k, lab in enumerate(free_labels):
